@@ -53,3 +53,21 @@ pub fn write_json(path: &str, v: &Value) {
 pub fn arg<'a>(args: &'a [String], name: &str) -> Option<&'a str> {
     args.iter().position(|a| a == name).and_then(|i| args.get(i + 1)).map(|s| s.as_str())
 }
+
+use std::sync::atomic::{AtomicUsize, Ordering};
+static LAST_PROOF: AtomicUsize = AtomicUsize::new(0);
+static PROOF_TICK: AtomicUsize = AtomicUsize::new(0);
+/// order in which an observation asks for the proofs of positions 0..cap: starts with the position asked
+/// last by the previous observation, ends with a position that varies from call to call
+pub fn proof_order(cap: usize) -> Vec<usize> {
+    let first = LAST_PROOF.load(Ordering::Relaxed) % cap;
+    let tick = PROOF_TICK.fetch_add(1, Ordering::Relaxed);
+    let last = (tick * 7 + 3) % cap;
+    let mut v: Vec<usize> = vec![first];
+    v.extend((0..cap).filter(|i| *i != first && (*i != last || last == first)));
+    if last != first {
+        v.push(last);
+    }
+    LAST_PROOF.store(*v.last().unwrap(), Ordering::Relaxed);
+    v
+}
